@@ -412,3 +412,12 @@ def session_plans(tree, seed, tier):
 
 
 CODE_PREFIX = "au/code/"
+
+
+def header_alone_cases(tree, seed, tier):
+    """(header, toolchain) pairs for the stand-alone sample of clause (c)."""
+    rng = rng_for(seed, "header-alone")
+    core = [h for h in tree.public_headers if "/units/" not in h and "/constants/" not in h]
+    rest = [h for h in tree.public_headers if h not in core]
+    headers = core + (rest if tier == "thorough" else rng.sample(rest, min(12, len(rest))))
+    return [{"seed": seed, "run": "alone-%s-%s/%s" % (h, c, s), "header_alone": h, "toolchain": {"a": [c, s]}} for h in headers for (c, s) in all_toolchains()]
